@@ -37,12 +37,17 @@ void harness(void) {
 	user.aggrReq = kind == 1 ? (KSI_AggregationReq *)&has : NULL;
 	user.extReq = kind == 2 ? (KSI_ExtendReq *)&has : NULL;
 
-	g_fan_len = nondet_size(); g_fan_at = 0; g_fan_offered = 0; g_fan_accepted = 0; g_fan_user = &user; g_fan_wrapper = NULL;
+	g_fan_len = nondet_size(); g_fan_at = 0;
+#ifdef FAN_MAX      /* bounded twin (loop unwound, independent of the names of the function's locals) */
+	if (g_fan_len > FAN_MAX) return;
+#endif g_fan_offered = 0; g_fan_accepted = 0; g_fan_user = &user; g_fan_wrapper = NULL;
 	g_hndl_new_calls = 0; g_hndl_destroyed = 0;
 	res = KSI_HighAvailabilityService_addRequest(&has, &user);
 	if (res == KSI_OK) REACH("accepted by at least one sub-service");
 	if (res == KSI_OK && g_fan_accepted < g_fan_len) REACH("accepted although some sub-services refused");
 	if (res != KSI_OK && g_fan_len > 0 && g_fan_offered == g_fan_len) REACH("refused by every sub-service");
 	if (res != KSI_OK && g_fan_accepted > 0) REACH("local failure after some sub-services had accepted");
+#ifndef FAN_MAX
 	if (res == KSI_OK && g_fan_len > 5) REACH("more than 5 sub-services");
+#endif
 }
